@@ -534,6 +534,48 @@ def nx2diagram_correspondence(rep, trips, disagreements):
 
 
 # ------------------------------------------------------------------ the check
+def spider_smoke(rep, di, directory, rng, count):
+    """Back-end smoke test on diagrams whose boxes are drawn as spiders (ZX diagrams; boxes with
+    draw_as_spider) of SEVERAL shapes and colours in one diagram: both back-ends render them."""
+    from discopy.quantum import zx
+    bad = 0
+    for k in range(count):
+        w = rng.randint(1, 2)
+        d = zx.Id(w)
+        for _ in range(rng.randint(2, 5)):
+            w = len(d.cod)
+            r = rng.random()
+            if w == 0:
+                g = zx.Z(0, rng.randint(1, 2), 0.25)
+                off = 0
+            elif r < 0.35:
+                g, off = zx.H, rng.randint(0, w - 1)
+            elif r < 0.7:
+                n = rng.randint(1, min(2, w))
+                g, off = rng.choice([zx.Z, zx.X])(n, rng.randint(0, 2), rng.choice([0, 0.25])), rng.randint(0, w - n)
+            elif w >= 2:
+                g, off = zx.SWAP, rng.randint(0, w - 2)
+            else:
+                g, off = zx.scalar(0.5), 0
+            d = d >> zx.Id(off) @ g @ zx.Id(w - off - len(g.dom))
+        if k == 0:
+            d = zx.Z(1, 2) >> zx.H @ zx.Id(1) >> zx.Id(1) @ zx.X(1, 1, 0.5)
+        rep.count("stream:spider-smoke")
+        try:
+            out = di.render(d, directory, "s%d" % k)
+            why = None if out["png"] > 0 and out["tikz"] else "a back-end wrote nothing"
+        except Exception as exc:   # noqa
+            why = "drawing back-end raised %s: %s" % (type(exc).__name__, exc)
+        if why:
+            bad += 1
+            rep.count("oracle:spider-smoke:FAIL")
+            if bad <= 3:
+                rep.violation("drawing a diagram with spiders of several shapes: " + why,
+                              {"stage": "back-ends", "diagram": repr(d)[:500]})
+        else:
+            rep.count("oracle:spider-smoke:pass")
+
+
 def decorator_reuse_stream(rep, rng, count):
     """Oracle-only stream on the real objects: a `diagramize(dom, cod, boxes)` decorator kept in a
     variable and applied to several function bodies gives, for each body, the diagram the one-shot
@@ -722,6 +764,8 @@ def run(tier, seed):
     with tempfile.TemporaryDirectory(prefix="c20b-") as bubble_dir:
         bubble_smoke(rep, di, bubble_dir, rng, 25 if quick else 300)
     decorator_reuse_stream(rep, rng, 30 if quick else 400)
+    with tempfile.TemporaryDirectory(prefix="c20s-") as spider_dir:
+        spider_smoke(rep, di, spider_dir, rng, 12 if quick else 150)
     rep.extra["backend_smoke"] = {
         "kind": "test, not proof", "rendered": state["rendered"], "failed": state["failed"],
         "skipped_empty": state["skipped_empty"], "skipped_budget": state["skipped_budget"],
